@@ -55,6 +55,7 @@ const (
 	baseGroup      = 20_000_000
 	baseSaturation = 30_000_000
 	caseZstdProbe  = 40_000_000
+	baseFail       = 50_000_000
 )
 
 type nullLogger struct{}
@@ -936,6 +937,219 @@ func runRoundTrips(r *mon.Run, zstd0Safe bool) {
 	}
 }
 
+// ---------------------------------------------------------------- (b') calls after a failed destination write
+
+// failWriter is a plain io.Writer that accepts n bytes and then fails.
+type failWriter struct {
+	left int
+	got  int
+}
+
+var errDestination = fmt.Errorf("c22: destination writer failed")
+
+func (w *failWriter) Write(p []byte) (int, error) {
+	if len(p) <= w.left {
+		w.left -= len(p)
+		w.got += len(p)
+		return len(p), nil
+	}
+	n := w.left
+	w.left = 0
+	w.got += n
+	return n, errDestination
+}
+
+// markerPayload: a payload that is recognisable wherever a piece of it turns up.
+func markerPayload(rnd *rand.Rand, tag string, n int) []byte {
+	m := []byte("<<" + tag + ">>")
+	b := make([]byte, 0, n+len(m))
+	for len(b) < n {
+		b = append(b, m...)
+		for k := rnd.Intn(12); k > 0; k-- {
+			b = append(b, byte('a'+rnd.Intn(26)))
+		}
+	}
+	return b
+}
+
+// decodeLenient decodes as much as it can (all members of a multi-member gzip stream, concatenated zstd
+// frames, the first stream otherwise) - only used to look for foreign markers, never as the verdict.
+func decodeLenient(codec string, z []byte) []byte {
+	switch codec {
+	case "gzip":
+		zr, err := gzip.NewReader(bytes.NewReader(z))
+		if err != nil {
+			return nil
+		}
+		out, _ := io.ReadAll(zr)
+		return out
+	case "deflate":
+		var all []byte
+		br := bytes.NewReader(z)
+		for br.Len() > 0 {
+			zr, err := zlib.NewReader(br)
+			if err != nil {
+				break
+			}
+			out, err := io.ReadAll(zr)
+			all = append(all, out...)
+			if err != nil {
+				break
+			}
+		}
+		return all
+	case "br":
+		out, _ := io.ReadAll(brotli.NewReader(bytes.NewReader(z)))
+		return out
+	default:
+		out, _ := zstdDec.DecodeAll(z, nil)
+		return out
+	}
+}
+
+func writeLevel(codec string, w io.Writer, src []byte, level int, useDefault bool) (int, error) {
+	switch codec {
+	case "gzip":
+		if useDefault {
+			return fasthttp.WriteGzip(w, src)
+		}
+		return fasthttp.WriteGzipLevel(w, src, level)
+	case "deflate":
+		if useDefault {
+			return fasthttp.WriteDeflate(w, src)
+		}
+		return fasthttp.WriteDeflateLevel(w, src, level)
+	case "br":
+		if useDefault {
+			return fasthttp.WriteBrotli(w, src)
+		}
+		return fasthttp.WriteBrotliLevel(w, src, level)
+	}
+	return fasthttp.WriteZstdLevel(w, src, level)
+}
+
+// runFailRounds: state must not travel from a Write*Level call whose plain destination writer failed
+// into a later call. One round = k calls with distinctive payloads to writers that fail after a PRNG-chosen
+// number of bytes, then m calls with other payloads to healthy plain writers - all on one goroutine (so that
+// per-P pools hand the later calls whatever the failed ones gave back), or spread over a few goroutines.
+// Each later call's output must decode to exactly its own input and contain no earlier payload's marker.
+func runFailRounds(r *mon.Run) {
+	n := r.N(400, 12_000)
+	mon.Parallel(n, 0, func(i int) {
+		ci := baseFail + i
+		if !r.Want(ci) {
+			return
+		}
+		rnd := r.Rand("failround", i)
+		codec := codecs[i%len(codecs)]
+		level := map[string]int{"gzip": 1, "deflate": 1, "br": 1, "zstd": 2}[codec]
+		if rnd.Intn(3) == 0 {
+			level = pickLevel(rnd, codec)
+			if codec == "zstd" && level == 0 {
+				level = 1
+			}
+			if codec == "br" && level > 6 {
+				level = 6
+			}
+		}
+		useDefault := rnd.Intn(4) == 0
+		k, m := 1+rnd.Intn(4), 1+rnd.Intn(4)
+		spread := rnd.Intn(4) == 0 // later calls from a few goroutines instead of the failing calls' goroutine
+		var earlier [][]byte
+		var tags []string
+		failedWrites := 0
+		for j := 0; j < k; j++ {
+			tag := fmt.Sprintf("EARLIER-%d-%d", i, j)
+			src := markerPayload(rnd, tag, 200+rnd.Intn(30_000))
+			fw := &failWriter{left: []int{0, 0, 1, 10, 100, rnd.Intn(4000)}[rnd.Intn(6)]}
+			var err error
+			func() {
+				defer func() {
+					if p := recover(); p != nil {
+						err = fmt.Errorf("panic: %v", p)
+					}
+				}()
+				_, err = writeLevel(codec, fw, src, level, useDefault)
+			}()
+			if err != nil {
+				failedWrites++
+				if strings.HasPrefix(err.Error(), "panic:") {
+					r.Violation(ci, "panic", fmt.Sprintf("%s Write*Level to a failing writer: %v", codec, err), map[string]any{"codec": codec, "level": level})
+					return
+				}
+			}
+			earlier = append(earlier, src)
+			tags = append(tags, "<<"+tag+">>")
+		}
+		r.Event("failround_failed_destination_writes", failedWrites)
+		type res struct {
+			src, out []byte
+			err      error
+		}
+		results := make([]res, m)
+		later := func(j int, rr *rand.Rand) {
+			src := markerPayload(rr, fmt.Sprintf("OWN-%d-%d", i, j), 200+rr.Intn(30_000))
+			pw := &plainWriter{}
+			var err error
+			func() {
+				defer func() {
+					if p := recover(); p != nil {
+						err = fmt.Errorf("panic: %v", p)
+					}
+				}()
+				_, err = writeLevel(codec, pw, src, level, useDefault)
+			}()
+			results[j] = res{src, pw.b, err}
+		}
+		if spread {
+			var wg sync.WaitGroup
+			for j := 0; j < m; j++ {
+				wg.Add(1)
+				rr := rand.New(rand.NewSource(rnd.Int63()))
+				go func(j int) { defer wg.Done(); later(j, rr) }(j)
+			}
+			wg.Wait()
+		} else {
+			for j := 0; j < m; j++ {
+				later(j, rnd)
+			}
+		}
+		r.Cases(m, fmt.Sprintf("failround/%s/k=%d/m=%d/spread=%t/default=%t/lvl=%s", codec, k, m, spread, useDefault, levelClass(codec, level)), true)
+		r.Event("failround_later_calls_checked", m)
+		for j, x := range results {
+			pl := map[string]any{"codec": codec, "level": level, "default_level_api": useDefault, "failing_calls": k, "later_call": j, "spread": spread, "own_len": len(x.src), "output_len": len(x.out)}
+			if x.err != nil {
+				if strings.HasPrefix(x.err.Error(), "panic:") {
+					r.Violation(ci, "panic", fmt.Sprintf("%s Write*Level after a failed write: %v", codec, x.err), pl)
+				} else {
+					r.Event("failround_later_call_explicit_error", 1)
+				}
+				continue
+			}
+			// marker scan first (narrower class), over everything that can be decoded from the output
+			lenient := decodeLenient(codec, x.out)
+			leaked := ""
+			for _, t := range tags {
+				if bytes.Contains(lenient, []byte(t)) || bytes.Contains(x.out, []byte(t)) {
+					leaked = t
+					break
+				}
+			}
+			if leaked != "" {
+				r.Violation(ci, "write-after-failed-write-emits-earlier-payload", fmt.Sprintf("%s Write*Level(plain io.Writer): the output of a later call (%d input bytes, %d output bytes) contains the payload %s of an earlier call whose destination writer had failed (decodes to %d bytes)", codec, len(x.src), len(x.out), leaked, len(lenient)), pl)
+				continue
+			}
+			if key, what := judge(codec, nil, x.src, x.out, nil); key != "" {
+				r.Violation(ci, "write-after-failed-write-"+key, fmt.Sprintf("%s Write*Level(plain io.Writer) after %d failed destination writes: %s", codec, k, what), pl)
+			}
+		}
+	})
+	if !r.Replaying() {
+		r.Require("failround_later_calls_checked", n)
+		r.Require("failround_failed_destination_writes", n/2)
+	}
+}
+
 // runGroups: the same call from g goroutines released together, g below the queue capacity.
 func runGroups(r *mon.Run) {
 	sizes := []int{1, 2, 16, 128, 1024, 2048}
@@ -1434,7 +1648,7 @@ func probeZstdLevel0(r *mon.Run) (safe bool) {
 func TestC22(t *testing.T) {
 	r := mon.Start(t, "C22")
 	defer r.Finish()
-	r.Rule("handler case = 1-3 pipelined requests (Accept-Encoding list of 1-5 codings over {gzip deflate br zstd identity * x-gzip GZIP foo…} × q-params × separators, absent, empty, two lines) to CompressHandler/CompressHandlerLevel/CompressHandlerBrotliLevel(levels in and out of range) around a handler producing a 0…3 MiB body (size ladder around minCompressLen=200) via SetBody/Write/SetBodyString/SetBodyRaw/SetBodyStream(size|-1)/SetBodyStreamWriter, with content types, pre-set Content-Encoding and Vary; round-trip case = codec × API (Append*Level, Append*, Write*Level to bytes.Buffer / ByteBuffer / plain io.Writer) × level × input; group = same call from 1…8192 goroutines behind one barrier; saturation = a child process with GOMAXPROCS=p (queue capacity p×2048, p workers) in which load×p×2048 goroutines behind one barrier compress the same 100 KiB input; distinct = feature vectors (wrapper, mode, content type, pre-encoding, size class, level class, resulting coding | codec, api, level class, size class, input kind | load); non-trivial = response was compressed or pre-encoded / non-empty input / more than one goroutine")
+	r.Rule("handler case = 1-3 pipelined requests (Accept-Encoding list of 1-5 codings over {gzip deflate br zstd identity * x-gzip GZIP foo…} × q-params × separators, absent, empty, two lines) to CompressHandler/CompressHandlerLevel/CompressHandlerBrotliLevel(levels in and out of range) around a handler producing a 0…3 MiB body (size ladder around minCompressLen=200) via SetBody/Write/SetBodyString/SetBodyRaw/SetBodyStream(size|-1)/SetBodyStreamWriter, with content types, pre-set Content-Encoding and Vary; round-trip case = codec × API (Append*Level, Append*, Write*Level to bytes.Buffer / ByteBuffer / plain io.Writer) × level × input; fail round = per codec 1-4 Write*Level calls with marker payloads to plain writers that fail after 0…4000 bytes, then 1-4 calls with other payloads to healthy plain writers on the same goroutine (or spread over goroutines): each later output must decode to exactly its own input and carry no earlier marker; group = same call from 1…8192 goroutines behind one barrier; saturation = a child process with GOMAXPROCS=p (queue capacity p×2048, p workers) in which load×p×2048 goroutines behind one barrier compress the same 100 KiB input; distinct = feature vectors (wrapper, mode, content type, pre-encoding, size class, level class, resulting coding | codec, api, level class, size class, input kind | load); non-trivial = response was compressed or pre-encoded / non-empty input / more than one goroutine")
 	r.Assume("decoding oracle: compress/gzip and compress/zlib of the standard library for gzip and deflate (\"deflate\" is the zlib-wrapped format, RFC 9110 8.4.1.2); for br and zstd the readers of andybalholm/brotli and klauspost/compress/zstd are driven directly (fasthttp links the same libraries, so a codec-library bug common to encoder and decoder would not be seen; transparency of fasthttp's use of them is)")
 	r.Assume("net/http.ReadResponse is the wire parser (framing: Content-Length / chunked / close)")
 	r.Assume("Accept-Encoding model written from RFC 9110 12.5.3; lists naming the chosen coding both with q>0 and q=0 are ambiguous and not judged (skipped_ambiguous_accept_encoding); an identity response is never judged against identity;q=0")
@@ -1457,6 +1671,7 @@ func TestC22(t *testing.T) {
 	}
 	phase("handler", func() { runHandlerCases(r, zstd0Safe) })
 	phase("roundtrip", func() { runRoundTrips(r, zstd0Safe) })
+	phase("failrounds", func() { runFailRounds(r) })
 	phase("groups", func() { runGroups(r) })
 	phase("saturation", func() { runSaturation(r) })
 	r.Set("phases", phases)
